@@ -1,4 +1,5 @@
 pub mod alloc;
+pub mod dict;
 pub mod exec;
 pub mod graph;
 pub mod iso;
